@@ -202,7 +202,7 @@ def lat_head_expr(rng, kind, int_vars, lat_vars):
         if kind == "min": return rng.choice([("var", v), ("add", ("var", v), rng.range(0, 3))])
         return ("var", v)
     e = ("var", rng.choice(int_vars)) if int_vars and rng.chance(2, 3) else rng.range(0, 4)
-    if kind == "set": return ("single", e)
+    if kind in ("set", "bset"): return ("single", e)
     if kind == "opt": return ("somex", e) if rng.chance(4, 5) else "none"
     return e
 
@@ -213,7 +213,7 @@ def gen_lat_program(rng):
     p = {"rels": [{"arity": rng.choice([1, 2, 2, 3])} for _ in range(nrel)], "rules": []}
     nlat = rng.range(1, 2)
     for _ in range(nlat):
-        p["rels"].append({"arity": rng.choice([1, 2, 2, 3]), "lat": rng.choice(["max", "min", "min", "set", "set", "opt"])})
+        p["rels"].append({"arity": rng.choice([1, 2, 2, 3]), "lat": rng.choice(["max", "min", "min", "set", "set", "opt", "bset", "bset"])})
     lats = list(range(nrel, nrel + nlat))
     rels = list(range(nrel))
     def rule(h, body_rels):
@@ -243,7 +243,7 @@ def gen_lat_program(rng):
             else: hargs.append(rng.range(0, 3))
         p["rules"].append({"heads": [(h, hargs)], "body": body + guards})
     for l in lats:
-        if p["rels"][l]["lat"] == "set" and p["rels"][l]["arity"] == 2:
+        if p["rels"][l]["lat"] in ("set", "bset") and p["rels"][l]["arity"] == 2:
             # data-flow shape: whole sets flow along the edges of a (cyclic) graph, so that a stored set is raised by larger supersets
             e2 = [r for r in rels if p["rels"][r]["arity"] == 2]
             if e2:
@@ -302,7 +302,8 @@ def gen_lat_input(rng, p, max_rows=8):
                 if k in seen: continue          # one input row per key (caller duplicates are exempt from the property)
                 seen.add(k)
                 v = t[-1]
-                lv = {"max": v, "min": v, "set": ("set", tuple(sorted({v, (v * 2) % 5}))), "opt": "none" if v == 0 else ("some", v)}[d["lat"]]
+                lv = {"max": v, "min": v, "set": ("set", tuple(sorted({v, (v * 2) % 5}))), "opt": "none" if v == 0 else ("some", v),
+                      "bset": ("set", tuple(sorted({v, (v * 2) % 5})))}[d["lat"]]
                 rows.append(k + (lv,))
             inp[r] = rows[:3]
     return inp
